@@ -483,7 +483,48 @@ def rule_l8(ctx, facts):
         ctx.fail_closed("L8: expected at least 10 value-slot accesses / found-node returns guarded by key comparisons, found %d" % n)
 
 
+def rule_l9(ctx, facts):
+    """a bin is read at the index computed for that very table: between `T.bini(hash)` and `T.bin(i)` the table variable is not re-assigned
+    (an index computed for an older table selects the wrong bin of a longer one)"""
+    n = 0
+    for b in facts.bodies:
+        fl = flow(b)
+        for c in b.calls:
+            if is_link_load(c) != "bin" or b.is_cleanup(c.b):
+                continue
+            il = op_root(c.args[1])
+            tl = op_root(c.args[0])
+            if il is None or tl is None:
+                continue
+            binis = [x for x in fl.call_roots(il) if x is not None and callee_str(x).endswith("raw::Table::bini")]
+            if not binis:
+                continue
+            n += 1
+            # multi-definition locals the receiver derives from (the loop's table variable)
+            tvars = [l for l in fl.closure_locals(tl) if len([d for d in b.defs.get(l, []) if d[1] in ("assign", "call")]) > 1]
+            stale = None
+            for bc in binis:
+                # the hash must be the operation's own
+                r1 = reach(b, after(b, bc.point, label="ret"), avoid={bc.point})
+                for tv in tvars:
+                    for pt, kind, data in b.defs.get(tv, []):
+                        if kind not in ("assign", "call") or pt not in r1:
+                            continue
+                        start = after(b, pt, label="ret") if kind == "call" else after(b, pt)
+                        if c.point in reach(b, start, avoid={bc.point}):
+                            stale = (bc, tv, pt)
+            ok = stale is None
+            ctx.inst("L9", b, "bin index computed for the table it is used on", c.span, ok,
+                     "index from bini() of the same table value" if ok else
+                     "the bin is read at %s with an index computed by bini() at %s, but `%s` is re-assigned in between (%s): the index belongs to an older, "
+                     "shorter table and selects the wrong bin" % (c.span, stale[0].span, b.local_name(stale[1]) or "_%d" % stale[1], b.span_at(stale[2])))
+    if n < 5:
+        ctx.fail_closed("L9: expected at least 5 bini/bin pairs (get_node, find, put, compute_if_present, replace_node), found %d" % n)
+
+
 def run(ctx, facts):
+    ctx.rule("L9", "Table::bin(T, i) uses an index computed by T.bini(hash) for the same table value (no re-assignment of the table variable in between)", floor=5)
+    rule_l9(ctx, facts)
     ctx.rule("L8", "a node's value slot is accessed, and a node is returned as found, only on the true edge of the user's key equality for that node", floor=10)
     rule_l8(ctx, facts)
     ctx.rule("L1", "every bin-lock region re-validates the head (pointer identity with a fresh Table::bin(T,i)) before any mutation", floor=11,
